@@ -74,8 +74,8 @@ def make_cases(names):
         steps = []
         for _ in range(n):
             kind = SEGS[draw(st.integers(0, len(SEGS) - 1))]
-            d = draw(st.lists(st.floats(-1, 1), min_size=5, max_size=5))
-            steps.append({'kind': kind, 'dir': d, 'mag': draw(st.floats(0.3, 6.0)), 'dt': draw(gen.logfloat(-6, 3)),
+            d = draw(st.lists(gen.floats(-1, 1), min_size=5, max_size=5))
+            steps.append({'kind': kind, 'dir': d, 'mag': draw(gen.floats(0.3, 6.0)), 'dt': draw(gen.logfloat(-6, 3)),
                           'delta': draw(st.sampled_from([0.0, 1.0, -1.0, 3.0, -3.0]))})
         return {'model': name, 'props': pr, 'steps': steps}
     return cases
